@@ -50,19 +50,21 @@ type Item struct {
 }
 
 type Inst struct {
-	cfg       InstCfg
-	el        leader.Election
-	h         *Handle
-	nc        *nats.Conn
-	np, nd    atomic.Int32
-	gauge     atomic.Int32
-	healthIdx int
-	partition string
-	lastSnap  string
-	apiBusy   atomic.Int32
-	lockHeld  atomic.Int32
-	gate      chan struct{}
-	group     string
+	cfg InstCfg
+	el  leader.Election
+	h   *Handle
+	nc  *nats.Conn
+	// startCancel cancels the context given to the latest Start call
+	startCancel context.CancelFunc
+	np, nd      atomic.Int32
+	gauge       atomic.Int32
+	healthIdx   int
+	partition   string
+	lastSnap    string
+	apiBusy     atomic.Int32
+	lockHeld    atomic.Int32
+	gate        chan struct{}
+	group       string
 }
 
 type prog struct {
@@ -1135,8 +1137,12 @@ func (w *World) exec(s *Step, now int64) {
 	case "start":
 		w.tr.Emit(s.I, "start_call", nil)
 		in.apiBusy.Add(1)
+		ctx, cancel := context.WithCancel(w.rootCtx)
+		w.mu.Lock()
+		in.startCancel = cancel
+		w.mu.Unlock()
 		go func() {
-			err := in.el.Start(w.rootCtx)
+			err := in.el.Start(ctx)
 			in.apiBusy.Add(-1)
 			w.tr.Emit(s.I, "start_ret", KV{"ok": err == nil, "err": apiErr(err)})
 		}()
@@ -1255,6 +1261,14 @@ func (w *World) exec(s *Step, now int64) {
 		}
 		w.write(key, nil, "outside", true, time.Now())
 		w.tr.Emit("env", "out_del", KV{"key": key, "rev": int64(w.st.seq)})
+	case "cancel_start_ctx": // the application cancels the context it gave to Start (without calling Stop)
+		w.tr.Emit(s.I, "start_ctx_cancelled", nil)
+		w.mu.Lock()
+		c := in.startCancel
+		w.mu.Unlock()
+		if c != nil {
+			c()
+		}
 	case "release_gate":
 		w.mu.Lock()
 		ch := in.gate
